@@ -422,10 +422,68 @@ func (g *gen7) value(d int, ptrFree bool) *VT {
 			}
 			v.Fields = append(v.Fields, f)
 		}
+		if r.chance(0.25) {
+			// twin fields: two fields of one (composite) type, so that a mismatch can sit
+			// at the SECOND occurrence of a type only
+			var cands []*Field
+			for _, f := range v.Fields {
+				if !f.Ptr && !f.Maybe && !f.Nil && (f.V.K == "list" || f.V.K == "map" || f.V.K == "obj") {
+					cands = append(cands, f)
+				}
+			}
+			if len(cands) > 0 {
+				src := cands[r.intn(len(cands))]
+				tw := &Field{Name: fieldNames[(perm+n)%len(fieldNames)]}
+				cloneVT(src.V, &tw.V)
+				v.Fields = append(v.Fields, tw)
+			}
+		}
 		return v
 	default:
 		return g.prim()
 	}
+}
+
+// internTypes rebuilds a raw compile-time environment so that structurally equal composite
+// types are ONE object shared by pointer (a host that builds its type environment by hand
+// from a few type constants); equality of types is structural, so nothing may change.
+func internTypes(te *types.Env) *types.Env {
+	tab := map[string]*types.Type{}
+	var walk func(t *types.Type) *types.Type
+	walk = func(t *types.Type) *types.Type {
+		var out *types.Type
+		switch t.Kind {
+		case types.KList:
+			out = types.List(walk(t.List().El))
+		case types.KMap:
+			out = types.Map(walk(t.Map().Key), walk(t.Map().Val))
+		case types.KMaybe:
+			out = types.Maybe(walk(t.Maybe().Elem))
+		case types.KObj:
+			fs := make([]types.Field, len(t.Obj().Fields))
+			for i, f := range t.Obj().Fields {
+				fs[i] = types.Field{Name: f.Name, Val: walk(f.Val)}
+			}
+			out = types.Obj(fs)
+		default:
+			return t
+		}
+		k := renderType(out)
+		if old, ok := tab[k]; ok {
+			return old
+		}
+		tab[k] = out
+		return out
+	}
+	ne := types.NewEnv()
+	var names []string
+	te.ForEach(func(k string, _ *types.Type) { names = append(names, k) })
+	sort.Strings(names)
+	for _, k := range names {
+		ty, _ := te.Get(k)
+		ne.Put(k, walk(ty))
+	}
+	return ne
 }
 
 // like: a value of the same model type and the same Go static type as proto, other contents.
@@ -972,6 +1030,7 @@ type Hist7 struct {
 	Steps []*Step7     `json:"steps"`
 	Reuse bool         `json:"reuse"` // reuse the previous step's host object when the step is "same"
 	RawA  bool         `json:"raw_a,omitempty"` // compile against a raw *types.Env (conv.TypeEnvOf(A))
+	Share bool         `json:"share,omitempty"` // RawA: structurally equal composite types of the compile-time environment are one shared object
 	Layer int          `json:"layer,omitempty"` // RawA: the first Layer names (sorted) live in a BASE level the compile-time environment is Derive()d from
 	Sim   simrt.Config `json:"sim"`
 }
@@ -1039,7 +1098,8 @@ func genHist7(r *rng) *Hist7 {
 		}
 	}
 	h.Reuse = r.chance(0.5)
-	h.RawA = r.chance(0.25)
+	h.RawA = r.chance(0.3)
+	h.Share = h.RawA && r.chance(0.5)
 	if h.RawA && r.chance(0.2) {
 		// a layered compile-time environment: names bound in an outer level are known at
 		// compile time like any other (the pinned library refuses such an environment, then
@@ -1129,6 +1189,9 @@ func runHist7(h *Hist7, x *evalCtx) hist7Result {
 			var compileEnv interface{} = hostA
 			if h.RawA {
 				if te, err := conv.TypeEnvOf(hostA); err == nil {
+					if h.Share {
+						te = internTypes(te)
+					}
 					compileEnv = te
 					if h.Layer > 0 {
 						var names []string
